@@ -40,6 +40,9 @@ func c13RefYAML(wbeh string, replicas int) string {
 	if wbeh == "backoff" {
 		y = strings.Replace(y, `restart: "no"`, "restart: \"always\"\n      backoff_seconds: 5", 1)
 	}
+	if wbeh == "manual" {
+		y = strings.Replace(y, "    working_dir: \"/tmp\"\n", "    working_dir: \"/tmp\"\n    disabled: true\n", 1)
+	}
 	return y
 }
 
@@ -117,7 +120,7 @@ func c13Scenarios(tier string) []*Scenario {
 			}
 		}
 	}
-	for _, wbeh := range []string{"daemon", "done", "pending", "released", "backoff"} {
+	for _, wbeh := range []string{"daemon", "done", "pending", "released", "backoff", "manual"} {
 		for _, init := range []int{1, 2} {
 			for _, h := range hist {
 				h := h
@@ -145,6 +148,8 @@ func c13Scenarios(tier string) []*Scenario {
 				case "backoff": // every replica has exited and waits out its restart back-off when the request arrives
 					sc.YAML = c13RefYAML(wbeh, init)
 					sc.Procs["w"] = &ProcScript{Launches: [][]Action{{Exit(1)}, {}}}
+				case "manual": // w is disabled: true; its replicas were started by hand before the request
+					sc.YAML = c13RefYAML(wbeh, init)
 				}
 				init, wbeh := init, wbeh
 				ready := func(w *World) bool {
@@ -222,6 +227,13 @@ func c13Scenarios(tier string) []*Scenario {
 						c.When = ready
 					}
 					calls = append(calls, c)
+				}
+				if wbeh == "manual" {
+					var starts []APICall
+					for i := 0; i < init; i++ {
+						starts = append(starts, APICall{Op: "start", Name: refReplicaName("w", init, i), When: func(w *World) bool { return w.launches["d#0"] > 0 }})
+					}
+					calls = append(starts, calls...)
 				}
 				sc.API = [][]APICall{calls}
 				if len(h) == 1 && (tier == "thorough" || h[0].n <= 3) {
@@ -333,7 +345,7 @@ func c13Check(w *World, init int, wbeh string) []Violation {
 		}
 	}
 	// at the end: removed replicas ended, added ones were launched with their own number
-	if len(obs) > 0 && w.Outcome != "deadlock" && (wbeh == "daemon" || wbeh == "released" || wbeh == "backoff") {
+	if len(obs) > 0 && w.Outcome != "deadlock" && (wbeh == "daemon" || wbeh == "released" || wbeh == "backoff" || wbeh == "manual") {
 		alive := map[int]bool{}
 		for _, f := range w.procs {
 			if f.Name == "w" && f.started && (!f.exited || f.inCleanup) {
@@ -348,7 +360,7 @@ func c13Check(w *World, init int, wbeh string) []Violation {
 			}
 		}
 		lastErr := obs[len(obs)-1].Err != ""
-		if !lastErr {
+		if !lastErr && wbeh != "manual" { // (replicas added to a disabled process are configured, not launched)
 			for i := 0; i < cur; i++ {
 				if !alive[i] {
 					vs = append(vs, viol("C13", "added-not-started", "after the last scale to %d replica %d is not running", cur, i))
